@@ -18,7 +18,8 @@ try:
     t = sh("/venv/bin/python -m pytest -q -p no:cacheprovider --timeout=900 --continue-on-collection-errors 2>&1 | tail -1", wt)
     tally = t.stdout.strip(); ran.append("tests with mutation: " + tally)
     r1 = sh(demo, wt); ran.append("mutated demo rc=%d" % r1.returncode)
-    ok = r0.returncode == 0 and ap.returncode == 0 and r1.returncode != 0 and "1466 passed, 16 errors" in tally
+    base = os.environ.get("SEED_BASE_TALLY", "2045 passed, 7 errors")  # tally of the pristine tree at /repo HEAD
+    ok = r0.returncode == 0 and ap.returncode == 0 and r1.returncode != 0 and base in tally
     print("\n".join(ran)); print("CONFIRMED" if ok else "REJECTED")
     if ok:
         dst = "/verif/seeded/%s" % sid
